@@ -346,7 +346,10 @@ impl Prop for C11 {
          antisymmetry) and ALL triples of length <= 3 (transitivity incl. through Equal), plus digit runs beyond usize. \
          Layer B: every subset of size <= 3 (quick) / 4 (thorough) of a 32-declaration `use` universe, 13 `mod`, 8 `extern crate` \
          and 17 import-list members, ALL permutations of each, x style editions x group_imports/reorder settings; barriers \
-         (blank line, #[macro_use], skipped item, other item kind) x all ordered pairs on each side. Non-trivial = the output \
+         (blank line, #[macro_use], skipped item, other item kind) x all ordered pairs on each side. Layer C: groups of \
+         21, 22, 33, 48, 64 (thorough: every size 21..=72) declarations / list members (imports in alias-only pairs) under \
+         the reversal, the riffle and every stride permutation i -> i*s (+1) mod n with gcd(s,n)=1, compared with the stable \
+         sort of the input (the sort implementation changes algorithm above 20 elements). Non-trivial = the output \
          order differs from the input order; distinct = distinct (input text, config)."
             .into()
     }
@@ -399,6 +402,24 @@ impl Prop for C11 {
                             extra: json!({"layer": "groups", "kind": kind, "subsets": chunk}),
                         });
                     }
+                }
+            }
+        }
+        // layer C: groups beyond the small-slice regime of the sort implementation (std switches
+        // algorithm above 20 elements): a bounded family of permutations instead of all of them
+        let sizes: Vec<usize> = if tier == Tier::Thorough { (21..=72).collect() } else { vec![21, 22, 33, 48, 64] };
+        for kind in ["use", "mod", "crate", "list"] {
+            for &n in &sizes {
+                for cfg in cfgs(tier, kind) {
+                    if cfg.get("imports_layout").is_some() {
+                        continue;
+                    }
+                    units.push(Unit {
+                        key: format!("big/{kind}/n{n}"),
+                        text: String::new(),
+                        cfg,
+                        extra: json!({"layer": "big", "kind": kind, "n": n}),
+                    });
                 }
             }
         }
@@ -531,6 +552,7 @@ impl Prop for C11 {
                 sink.sample(json!({"layer": "groups", "kind": kind, "config": u.cfg.label(),
                     "first_subset": u.extra["subsets"][0], "permutations": "all"}));
             }
+            "big" => check_big(u, sink),
             "barrier" => check_barriers(u, sink),
             "comments" => {
                 // comment-carrying elements: tail comment / leading comment, at the
@@ -644,6 +666,98 @@ fn check_list(u: &Unit, members: &[&str], _tier: Tier, sink: &mut Sink) {
             }
         }
     }
+}
+
+/// Large groups: n elements `m00..`, for `use` / list members in alias-only pairs (`as first`, `as second`).
+/// Permutation family: identity, reversal, every stride permutation i -> (i * s) mod n with gcd(s, n) = 1, and the
+/// riffle of the two halves. Expected order: the stable sort of the input sequence by module number (ASCII order
+/// and version sort agree on zero-padded two-digit numbers).
+fn check_big(u: &Unit, sink: &mut Sink) {
+    let kind = u.extra["kind"].as_str().unwrap();
+    let n = u.extra["n"].as_u64().unwrap() as usize;
+    let paired = kind == "use" || kind == "list";
+    // element = (module number, alias index)
+    let elems: Vec<(usize, usize)> = (0..n).map(|i| if paired { (i / 2, i % 2) } else { (i, 0) }).collect();
+    let gcd = |mut a: usize, mut b: usize| {
+        while b != 0 {
+            let t = a % b;
+            a = b;
+            b = t;
+        }
+        a
+    };
+    let mut perms: Vec<(String, Vec<usize>)> = vec![("reversed".into(), (0..n).rev().collect())];
+    for s in 1..n {
+        if gcd(s, n) == 1 {
+            perms.push((format!("stride{s}"), (0..n).map(|i| (i * s) % n).collect()));
+            perms.push((format!("stride{s}+1"), (0..n).map(|i| (i * s + 1) % n).collect()));
+        }
+    }
+    perms.push(("riffle".into(), (0..n).map(|i| if i % 2 == 0 { i / 2 } else { (n + 1) / 2 + i / 2 }).collect()));
+    let alias = ["first", "second"];
+    let reorder = u.cfg.get("reorder_imports") != Some("false") && u.cfg.get("reorder_modules") != Some("false");
+    let mut reported = false;
+    for (pname, perm) in perms {
+        let seq: Vec<(usize, usize)> = perm.iter().map(|&i| elems[i]).collect();
+        let text_of = |&(m, a): &(usize, usize)| match kind {
+            "use" => format!("use m{m:02}::item as {};", alias[a]),
+            "mod" => format!("mod m{m:02};"),
+            "crate" => format!("extern crate m{m:02};"),
+            _ => format!("m{m:02} as {}", alias[a]),
+        };
+        let src = if kind == "list" {
+            format!("use x::{{{}}};\n", seq.iter().map(text_of).collect::<Vec<_>>().join(", "))
+        } else {
+            seq.iter().map(|e| format!("{}\n", text_of(e))).collect::<String>()
+        };
+        let o = fmt::format(&src, &u.cfg, 100);
+        sink.count("evaluations", 1);
+        if !o.ok() {
+            continue;
+        }
+        if o.text != src {
+            sink.distinct.insert(hash64(&format!("{src}\u{0}{}", u.cfg.label())));
+        }
+        // observed sequence of (module, alias) from the output's tokens
+        let toks: Vec<&str> = o.text.split(|c: char| !(c.is_alphanumeric() || c == '_')).filter(|t| !t.is_empty()).collect();
+        let mut got: Vec<(usize, usize)> = vec![];
+        for (i, t) in toks.iter().enumerate() {
+            if t.len() == 3 && t.starts_with('m') && t[1..].chars().all(|c| c.is_ascii_digit()) {
+                let m: usize = t[1..].parse().unwrap();
+                let a = if paired {
+                    let al = if kind == "use" { toks.get(i + 3) } else { toks.get(i + 2) };
+                    match al {
+                        Some(&"first") => 0,
+                        Some(&"second") => 1,
+                        _ => 9,
+                    }
+                } else {
+                    0
+                };
+                got.push((m, a));
+            }
+        }
+        let mut want = seq.clone();
+        if reorder {
+            want.sort_by_key(|&(m, _)| m); // stable
+        }
+        if got != want && !reported {
+            reported = true;
+            let mut vu = u.clone();
+            vu.text = src.clone();
+            let mut g = got.clone();
+            g.sort();
+            let mut w = want.clone();
+            w.sort();
+            let what = if g != w {
+                "large group: output is not a permutation of the input elements"
+            } else {
+                "large group: order is not the stable sort of the input (depends on input order / sort algorithm)"
+            };
+            sink.violation("C11", &vu, 100, what, format!("permutation {pname}\nexpected {want:?}\ngot      {got:?}\n{}", o.text));
+        }
+    }
+    sink.sample(json!({"layer": "big", "kind": kind, "n": n, "config": u.cfg.label()}));
 }
 
 fn check_barriers(u: &Unit, sink: &mut Sink) {
